@@ -1,12 +1,18 @@
 package props
 
 import (
+	"bytes"
+	"encoding/json"
+	"fmt"
 	"math"
 	"math/big"
+	"os"
+	"os/exec"
 	"runtime/debug"
 	"sort"
 	"strings"
 	"testing"
+	"time"
 
 	"github.com/db47h/decimal"
 	"pgregory.net/rapid"
@@ -193,6 +199,9 @@ func checkC14(c C14Case, o *h.Obs) *h.Fail {
 	if c.Op == "out" {
 		return checkC14Out(c, o)
 	}
+	if c.Op == "rat-probe" {
+		return c14RatProbe(c, o)
+	}
 	z := mkRecv(c.P, c.M)
 	var exact model.X
 	wantPrec := []uint{c.P}
@@ -302,6 +311,66 @@ func checkC14(c C14Case, o *h.Obs) *h.Fail {
 		return h.Failf("acc", "%s(%s/%s, exp %d): value %v accuracy %v want %v", c.Op, h.FirstN(c.I, 80), h.FirstN(c.Den, 80), c.Exp, got.Val(), model.Acc(got.Acc), wacc)
 	}
 	return nil
+}
+
+// ratSpanBeyondInt32 is the zone of known finding F-36: Rat forms 19*len(mant) - exp in int32, which wraps for values
+// below about 10^(19*words - 2^31). (Mantissas as Spec.Build makes them: minimal unless a history pads them, so the
+// zone is taken one word wider than the minimal mantissa needs.)
+func ratSpanBeyondInt32(c C14Case) bool {
+	if c.Op != "out" && c.Op != "rat-probe" || c.X.F != "f" {
+		return false
+	}
+	words := int64(len(c.X.D)+18)/19 + 1
+	return 19*words-c.X.E > math.MaxInt32
+}
+
+// c14RatProbe calls Rat on a value whose denominator has more than two billion digits. No machine finishes that
+// conversion, so the call runs in a child process that is killed after a few seconds: a panic in that time is a
+// failure (nothing but ErrNaN may panic), a result in that time cannot be right either, and a child that is still
+// computing says nothing (a time budget is never a verdict).
+func c14RatProbe(c C14Case, o *h.Obs) *h.Fail {
+	enc, _ := json.Marshal(c.X)
+	cmd := exec.Command(os.Args[0], "-test.run=^TestC14RatChild$", "-test.timeout=120s")
+	cmd.Env = append(os.Environ(), "VERIF_C14_RAT_CASE="+string(enc))
+	var out bytes.Buffer
+	cmd.Stdout, cmd.Stderr = &out, &out
+	if err := cmd.Start(); err != nil {
+		return h.Failf("bad-case", "cannot start the child process: %v", err)
+	}
+	done := make(chan error, 1)
+	go func() { done <- cmd.Wait() }()
+	select {
+	case <-done:
+	case <-time.After(8 * time.Second):
+		cmd.Process.Kill()
+		<-done
+		o.Label("rat-probe:still-computing-when-killed")
+		return nil
+	}
+	o.NonTrivial()
+	text := out.String()
+	if i := strings.Index(text, "panic:"); i >= 0 {
+		return h.Failf("rat-panic", "Rat(%v) %s", c.X.Val(), h.FirstN(strings.SplitN(text[i:], "\n", 2)[0], 200))
+	}
+	if strings.Contains(text, "RAT-RETURNED") {
+		return h.Failf("rat", "Rat(%v) returned within seconds: a denominator of more than 2^31 digits cannot have been built", c.X.Val())
+	}
+	return h.Failf("bad-case", "child process: %s", h.FirstN(text, 300))
+}
+
+// TestC14RatChild is the child side of c14RatProbe.
+func TestC14RatChild(t *testing.T) {
+	enc := os.Getenv("VERIF_C14_RAT_CASE")
+	if enc == "" {
+		t.Skip("only run as a child of the rat-probe case")
+	}
+	var sp h.Spec
+	if err := json.Unmarshal([]byte(enc), &sp); err != nil {
+		t.Fatal(err)
+	}
+	x := sp.Build()
+	r, acc := x.Rat(nil)
+	fmt.Println("RAT-RETURNED", r != nil, acc)
 }
 
 func checkC14Out(c C14Case, o *h.Obs) *h.Fail {
@@ -578,7 +647,7 @@ func c14GiantMantissaAccuracy() *h.Fail {
 	return nil
 }
 
-var propC14 = &h.Prop[C14Case]{ID: "C14", Rule: ruleC14, Gen: genC14, Check: checkC14, Matchers: map[string]func(C14Case) bool{}}
+var propC14 = &h.Prop[C14Case]{ID: "C14", Rule: ruleC14, Gen: genC14, Check: checkC14, Matchers: map[string]func(C14Case) bool{"rat-exponent-span-beyond-int32": ratSpanBeyondInt32}}
 
 func TestC14(t *testing.T)       { propC14.Search(t) }
 func TestC14Replay(t *testing.T) { propC14.Replay(t) }
